@@ -1,6 +1,7 @@
 //! xsgh — runs the real xml_schema_generator (path dependency on /repo, rebuilt from the
 //! working tree) on generated inputs and writes Coq case files in which the model is
 //! evaluated on the same inputs.
+mod bytesgen;
 mod c15;
 mod chars;
 mod core;
@@ -79,6 +80,8 @@ fn main() {
         "C04" => docprops::c04(&mut ctx),
         "C05" => docprops::c05(&mut ctx),
         "C06" => docprops::c06(&mut ctx),
+        "C07" => bytesgen::run(&mut ctx, true),
+        "C08" => bytesgen::run(&mut ctx, false),
         "C09" => docprops::c09(&mut ctx),
         "C11" => docprops::c11(&mut ctx),
         "render-proc" => {
